@@ -113,6 +113,10 @@ def main() -> int:
         tb = traceback.format_exc()
         if "/pypose/" in tb:
             ctx.disagree("implementation-crash", {"exception": repr(e)}, tb[-1500:])
+        elif "non-finite on the wire" in tb:
+            # a NaN/inf computed by the implementation was about to be handed to the model: the correspondence
+            # no longer checks (the harnesses send finite values only on a tree where the property holds)
+            ctx.disagree("non-finite-implementation-value", {"exception": repr(e)}, tb[-1500:])
         else:
             print("infrastructure error (harness bug):\n" + tb, file=sys.stderr)
             return common.EXIT_INFRA
